@@ -675,7 +675,7 @@ impl Monitor for C03 {
     }
     fn streams(&self, tier: Tier, budget: f64) -> Vec<Stream> {
         let (a, b, c) = match tier {
-            Tier::Quick => (40_000, 60_000, 30_000),
+            Tier::Quick => (150_000, 250_000, 100_000),
             Tier::Thorough => (2_000_000, 3_000_000, 1_500_000),
         };
         vec![
